@@ -105,8 +105,36 @@ def interface_sign(m, ifc, ids, fixed_tris):
         tot += s * mesh_solid_angle(c, m["meshes"][k][1], fixed_tris[k])
     if abs(tot - 4 * math.pi) < 1e-9: return 1
     if abs(tot + 4 * math.pi) < 1e-9: return -1
-    if abs(tot) < 1e-13: return 2       # the reader then draws random points until the angle is non-zero: not a function of the input
+    if abs(tot) < 1e-6:
+        # the reader draws random points of the box until the angle is significant.  For one connected closed coherently
+        # oriented surface every such point is interior and gives the orientation sign; anything else (several
+        # components, open or incoherent unions) is not a function of the input: 2 = "do not use this case"
+        if closed_connected(m, ifc, ids, fixed_tris):
+            vol = sum(s * signed_volume6(m["meshes"][k][1], fixed_tris[k]) for s, k in ifc)
+            if abs(vol) > 1e-9: return 1 if vol > 0 else -1
+        return 2
     return 0
+
+def closed_connected(m, ifc, ids, fixed_tris):
+    """the signed union is one connected surface in which every directed edge is cancelled by its opposite"""
+    edges = {}; tris = []
+    for s, k in ifc:
+        for t in fixed_tris[k]:
+            tt = t if s > 0 else (t[1], t[0], t[2])
+            pt = tuple(ids[k][a] for a in tt); tris.append(pt)
+            for i in range(3):
+                e = (pt[i], pt[(i + 1) % 3]); edges[e] = edges.get(e, 0) + 1
+    if not tris: return False
+    if any(c != 1 or edges.get((b, a), 0) != 1 for (a, b), c in edges.items()): return False
+    # connectivity over shared vertices
+    parent = {}
+    def find(x):
+        while parent.setdefault(x, x) != x:
+            parent[x] = parent[parent[x]]; x = parent[x]
+        return x
+    for a, b, c in tris:
+        ra, rb, rc = find(a), find(b), find(c); parent[rb] = ra; parent[rc] = ra
+    return len({find(x) for t in tris for x in t}) == 1
 
 def inside_interface(m, ifc, p, fixed=None):
     """geometric truth of Interface::contains(p): |winding| is 1 for a closed surface whatever its orientation
@@ -134,6 +162,36 @@ def abstract(m, probes=(), old=False):
     for p in probes:
         pw += [1 if (ok and inside_interface(m, ifc, p, fixed)) else 0 for ifc, ok in zip(ifs, ok_if)]
     return dict(isign=isign, ifs=ifs, doms=doms, unstable=(2 in isign), probe_wire=pw)
+
+# ------------------------------------------------------------------ extra topology
+def bowl(level=1, r_in=0.8, r_out=1.0):
+    """closed genus-0 surface whose bounding-box centre is OUTSIDE the enclosed volume: thick hemispherical shell z>=0
+    (outer cap, inner cap reversed, flat rim at z=0)"""
+    import models
+    v0, t0 = models.octasphere(level)
+    vn, tn = models.submesh(v0, t0, lambda t: all(v0[a][2] >= -1e-12 for a in t))
+    n = len(vn)
+    verts = [(r_out * x, r_out * y, r_out * max(z, 0.0)) for x, y, z in vn] + [(r_in * x, r_in * y, r_in * max(z, 0.0)) for x, y, z in vn]
+    tris = [tuple(t) for t in tn] + [(n + b, n + a, n + c) for a, b, c in tn]
+    ring = sorted([k for k, (x, y, z) in enumerate(vn) if abs(z) < 1e-12], key=lambda k: math.atan2(vn[k][1], vn[k][0]))
+    for i in range(len(ring)):
+        a, b = ring[i], ring[(i + 1) % len(ring)]
+        tris += [(b, a, n + a), (b, n + a, n + b)]
+    return verts, tris
+
+def bowl_model(level=1, sigma=1.0, inside_sphere=False):
+    """a bowl-shaped conductor in air, optionally enclosed in a sphere of radius 1.5 (then the bowl is an inclusion)"""
+    import models
+    vs, ts = bowl(level)
+    m = dict(meshes=[("bowl", vs, ts)], interfaces=[("Bowl", [(+1, "bowl")])], domains=[("Wall", [(-1, "Bowl")])], cond={"Wall": sigma},
+             info=dict(kind="bowl", centre=(0, 0, 0), outer_radius=1.0, topology="bowl"))
+    if inside_sphere:
+        vi, ti = models.icosphere(1)
+        m["meshes"].append(("outer", models.transform(vi, 1.5), list(ti))); m["interfaces"].append(("Outer", [(+1, "outer")]))
+        m["domains"] += [("Body", [(-1, "Outer"), (+1, "Bowl")]), ("Air", [(+1, "Outer")])]; m["cond"].update(Body=0.33, Air=0.0)
+    else:
+        m["domains"].append(("Air", [(+1, "Bowl")])); m["cond"]["Air"] = 0.0
+    return m
 
 # ------------------------------------------------------------------ probes
 def probe_points(m, rng, n, margin=0.04):
